@@ -126,6 +126,30 @@ opened("C06-round-negative-tie", "C06",
        "round() rounds negative ties away from zero (round(-1.5) = -2, XPath 1.0: -1); the repository's own "
        "TestFunctionRound pins this value, so it cannot be repaired without editing the suite; substring() bounds share the helper",
        expect("<r/>", "round(-1.5)", num("-1")))
+opened("C08-slash-star-ambiguity", "C08",
+       "an absolute path that starts '/*' and continues with '/', '//' or '-' is also parsed as the multiplication "
+       "(/) * (...), which XPath 1.0 section 3.7 forbids, and the evaluator may pick that reading: 0+/*/a is NaN or a "
+       "product instead of number(/*/a); grammar-level (gogll-generated lexer has no preceding-token rule; gogll is "
+       "not available offline to regenerate it)",
+       expect("<r>5<a>2</a><a>3</a></r>", "0+/*/a", num("2")))
+opened("C08-number-trailing-dot", "C08",
+       "the Number '1.' (digits, point, no fraction digits) is valid XPath 1.0 but BuildExpr rejects it (grammar file has no Digits '.' alternative)",
+       expect("<r/>", "1.", num("1")))
+opened("C08-ncname-underscore-start", "C08",
+       "an NCName may start with '_' but the generated lexer's ncname token must start with a letter or '#': /_a is rejected",
+       expect("<_a>1</_a>", "/_a", nodes("/0")))
+opened("C08-operator-named-name-test", "C08",
+       "elements named and/or/div/mod cannot be selected: the name test /div is rejected (no reserved-name production for operator names)",
+       expect("<div>1</div>", "/div", nodes("/0")))
+opened("C08-backslash-in-double-quoted-literal", "C08",
+       "a double-quoted literal containing a backslash that is not a recognised escape (\"a\\b\") is rejected; XPath literals have no escapes",
+       expect("<r/>", '"a\\b"', st("a\\b")))
+opened("C08-number-split-by-white-space", "C08",
+       "'1 . 5' is not an expression but BuildExpr accepts it (Number is a syntax rule over tokens, so white space may split it); Exec then fails with a strconv error",
+       expect("<r/>", "1 . 5", {"t": "reject"}))
+opened("C08-slash-star-as-multiply", "C08",
+       "'/ * 2' is not an expression (after the operator '/' a '*' is a name test, XPath 1.0 section 3.7) but BuildExpr accepts it and evaluates (/) * 2",
+       expect("<r/>", "/ * 2", {"t": "reject"}))
 
 
 def main():
